@@ -223,7 +223,10 @@ impl MqttShared {
     ) -> Result<(), EncodeError> {
         self.check_streaming()?;
         self.enable_streaming(&pkt, payload.as_ref());
-        self.io.encode(Encoded::Publish(pkt, payload), &self.codec)
+        self.io.encode(Encoded::Publish(pkt, payload), &self.codec).inspect_err(|_| {
+            // nothing was written, no payload chunks are expected
+            self.streaming_remaining.set(None);
+        })
     }
 
     pub(super) fn encode_publish_payload(&self, payload: Bytes) -> Result<bool, EncodeError> {
@@ -433,6 +436,7 @@ impl MqttShared {
 
         let mut queues = self.queues.borrow_mut();
         if queues.inflight_ids.contains(&id) {
+            self.streaming_remaining.set(None);
             Err(SendPacketError::PacketIdInUse(id))
         } else {
             match self.io.encode(Encoded::Publish(pkt, payload), &self.codec) {
@@ -442,7 +446,10 @@ impl MqttShared {
                     queues.inflight_ids.insert(id);
                     Ok(rx)
                 }
-                Err(e) => Err(SendPacketError::Encode(e)),
+                Err(e) => {
+                    self.streaming_remaining.set(None);
+                    Err(SendPacketError::Encode(e))
+                }
             }
         }
     }
@@ -460,6 +467,7 @@ impl MqttShared {
 
         let mut queues = self.queues.borrow_mut();
         if queues.inflight_ids.contains(&id) {
+            self.streaming_remaining.set(None);
             Err(SendPacketError::PacketIdInUse(id))
         } else {
             match self.io.encode(Encoded::Publish(pkt, payload), &self.codec) {
@@ -472,7 +480,10 @@ impl MqttShared {
                     queues.inflight_ids.insert(id);
                     Ok(())
                 }
-                Err(e) => Err(SendPacketError::Encode(e)),
+                Err(e) => {
+                    self.streaming_remaining.set(None);
+                    Err(SendPacketError::Encode(e))
+                }
             }
         }
     }
